@@ -1725,3 +1725,8 @@ Proof.
     + intro Hin. inversion Hnd; subst. apply zip_fst_incl in Hin. tauto.
     + apply IH. inversion Hnd; assumption.
 Qed.
+
+(* ---------- C11: an adopted order is charged to the runner context of its strategy and selection ---------- *)
+Theorem adoption_charges_context s x st :
+  exists c, In c (ls_ctx (adopt s x st)) /\ rc_strat c = st /\ rc_sel c = sr_sel x /\ In (ls_next_trade s) (rc_trades c) /\ In (ls_next_trade s) (rc_live c).
+Proof. unfold adopt. cbv zeta. cbn [ls_ctx]. apply ctx_place_charges. Qed.
